@@ -512,7 +512,7 @@ func init() {
 	addProp(&PropSpec{
 		ID: "C10",
 		Harnesses: []HarnessSpec{
-			{Name: "VerifH_proxy", Concurrent: true, MaxPathsT: 4000000, Covers: []string{"U", "CS", "SS", "BD", "succeeds", "fails-before", "fails-during", "fails-after", "replies-after-end-of-stream", "returns-without-reading-all", "client-keeps-stream-open", "multi-valued-metadata", "status-with-details"}},
+			{Name: "VerifH_proxy", Concurrent: true, MaxPathsT: 4000000, Covers: []string{"U", "CS", "SS", "BD", "succeeds", "fails-before", "fails-during", "fails-after", "replies-after-end-of-stream", "returns-without-reading-all", "client-keeps-stream-open", "multi-valued-metadata", "status-with-details", "http-front"}},
 		},
 		Bounds: map[string]string{
 			"quick":    "one gRPC call through the REAL RegisterConn + createConnHandler + serveGRPC for each streaming shape (unary, client, server, bidirectional); backend scripts: 0..2 replies (exactly 1 / 0 for single-reply shapes), final status OK / NotFound / Canceled / Unavailable, failing before reading, right after the first reply or at the end, reading the request stream first / last / never; client: 0..2 request messages, ending its stream or keeping it open until the call ends, one metadata value; goroutine model with context bound 1 (the proxy's pump goroutine, the backend handler goroutine and the serving goroutine; scheduling points at every channel / WaitGroup / pool / atomic operation and every network read / write of the fakes)",
